@@ -92,6 +92,10 @@ func (fundProposalTx) Validate(ctx *action.Context, signedTx action.SignedTx) (b
 	if currency.Name != fundProposal.FundValue.Currency {
 		return false, errors.Wrap(action.ErrInvalidAmount, fundProposal.FundValue.String())
 	}
+	// the amount must be a valid, non-negative amount of that currency
+	if !fundProposal.FundValue.IsValid(ctx.Currencies) {
+		return false, errors.Wrap(action.ErrInvalidAmount, fundProposal.FundValue.String())
+	}
 
 	//Check if Funder address is valid oneLedger address
 	err = fundProposal.FunderAddress.Err()
